@@ -26,7 +26,7 @@ ASSUMPTIONS = [
     "representability of numbers at settings.decimals and numeric equality after re-import are not decided",
     "identifier names and single-line descriptions without '#' (property precondition)",
 ]
-FLOORS = {"T13": 3, "T14": 6, "T4": 24, "T5": 18, "T6": 23, "T7": 7, "T8": 6, "T9": 50, "T10": 20, "T11": 1}
+FLOORS = {"T13": 3, "T14": 6, "T4": 30, "T5": 18, "T6": 23, "T7": 7, "T8": 6, "T9": 50, "T10": 20, "T11": 1}
 
 KIND_BY_ANNOTATION = [("bool", "boolean"), ("float", "to_float"), ("SNorm", "snorm"), ("TNorm", "tnorm"),
                       ("Defuzzifier", "defuzzifier"), ("Activation", "activation"), ("str", "raw")]
@@ -131,7 +131,7 @@ def components(check: Check) -> None:
                 check.violation("T4", f"{comp}/{key}", f"the importer accepts `{key}:` for a {comp} but the exporter never writes it "
                                 "(information lost by one import/export cycle)", f"{ifn.file}:{i.lineno}")
         # unknown keys are rejected
-        raises = [n for n in ast.walk(ifn.node) if isinstance(n, ast.Raise)]
+        raises = [n for n in ast.walk(ifn.analysis_node) if isinstance(n, ast.Raise)]
         check.require(bool(raises), "T4", f"{comp}/unknown-key", "an unknown key is rejected", loc(ifn))
     # sub-component lists
     def prints_all(efn, prm: str, coll: str, meth: str) -> int:
@@ -171,10 +171,45 @@ def components(check: Check) -> None:
              prints_all(eng_fn, eprm, "rule_blocks", "rule_block")]
     check.require(all(o > 0 for o in order) and order == sorted(order), "T4", "Engine/components",
                   "an engine prints all input variables, output variables and rule blocks, in this order", loc(eng_fn))
+    # every component that is read is added: nothing about the component itself decides whether it is kept
+    for q in ("FllImporter._process", "FllImporter.input_variable", "FllImporter.output_variable", "FllImporter.rule_block"):
+        f_ = p.func(q)
+        check.analysed(f_)
+        rr = Resolver(p, f_)
+        for n, c in rr.cfg.find_calls(".append"):
+            if not (isinstance(c.func, ast.Attribute) and isinstance(c.func.value, ast.Attribute) and
+                    c.func.value.attr in ("input_variables", "output_variables", "rule_blocks", "terms", "rules") and c.args):
+                continue
+            val = rr.term(c.args[0], n)
+            odd = []
+            for g, pol, gn in rr.cfg.must_guards(n):
+                gt = rr.term(g, gn)
+                while gt[0] == "unop" and gt[1] == "not":
+                    gt = gt[2]
+                if gt[0] == "cmp" and any(x[0] == "const" and isinstance(x[1], str) for x in gt[2]):
+                    continue  # which key / component this line is
+                if gt[0] in ("elem", "call") and not any(q_ == val for q_ in walk(gt)) and gt != val:
+                    continue  # a test on the line itself (blank lines)
+                if gt == val:
+                    # truthiness of the parsed component: harmless only for classes that are always truthy
+                    meth = val[1][2] if val[0] == "call" and val[1][0] == "attr" else None
+                    target = p.cls("FllImporter").lookup(meth) if meth else None
+                    ret = unparse(target.node.returns).split("|")[0].strip() if target is not None and target.node.returns is not None else None
+                    cls_ = p.classes.get(ret) if ret else None
+                    sized = [m for m in ("__bool__", "__len__") if cls_ is not None and cls_.lookup(m) is not None]
+                    if cls_ is not None and not sized:
+                        continue
+                    odd.append(f"`{unparse(g)}` - a {ret or 'component'} is falsy when " + (f"its {sized[0]} says so (no terms / no rules)" if sized else "?"))
+                    continue
+                odd.append(f"`{unparse(g)}`")
+            check.require(not odd, "T4", f"{q.split('.')[-1]}/{c.func.value.attr}.append",
+                          f"every {c.func.value.attr[:-1].replace('_', ' ')} that is read is added" if not odd else
+                          f"a parsed component is added only when {odd[0]}: such a component is silently dropped by the import, the second export differs "
+                          "from the first and the imported engine has a different structure", loc(f_, n))
     # importer dispatch on component headers
     ifn = p.func("FllImporter.engine")
     check.analysed(ifn)
-    hdr = [s for s in ast.walk(ifn.node) if isinstance(s, ast.Set)]
+    hdr = [s for s in ast.walk(ifn.analysis_node) if isinstance(s, ast.Set)]
     names = {e.value for s in hdr for e in s.elts if isinstance(e, ast.Constant)}
     check.require(names == {"Engine", "InputVariable", "OutputVariable", "RuleBlock"}, "T4", "FllImporter.engine/headers",
                   f"blocks start at the four component headers (found {sorted(names)})", loc(ifn))
@@ -285,7 +320,7 @@ def range_setter_order(check: Check) -> list[str]:
     if fn is None:
         raise AnalysisError("anchor vanished: Variable.range setter")
     out = []
-    for s in ast.walk(fn.node):
+    for s in ast.walk(fn.analysis_node):
         if isinstance(s, ast.Assign) and isinstance(s.targets[0], ast.Tuple):
             out = [e.attr for e in s.targets[0].elts if isinstance(e, ast.Attribute)]
     return out
@@ -376,7 +411,7 @@ def term_tables(check: Check) -> None:
             problems.append(f"_parse expects {req} values but parameters() prints {len(pa)}")
         if hflag is not True:
             problems.append("_parse is called without the optional height")
-        if pfn is not None and not any(isinstance(x, ast.Call) and isinstance(x.func, ast.Attribute) and x.func.attr == "_parameters" for x in ast.walk(pfn.node)):
+        if pfn is not None and not any(isinstance(x, ast.Call) and isinstance(x.func, ast.Attribute) and x.func.attr == "_parameters" for x in ast.walk(pfn.analysis_node)):
             problems.append("parameters() does not go through _parameters (height elision)")
         check.require(not problems, "T6", f"{c.name}/parameters", f"{c.name}: parameters() = configure() = constructor order {pa} (+ optional height)"
                       if not problems else f"{c.name}: " + "; ".join(problems), where, {"printed": pa, "configured": conf_names, "constructor": ctor, "required": req})
@@ -447,7 +482,7 @@ def parse_helper(check: Check) -> None:
                 got_accept = outcome == "return"
                 if got_accept != want_accept or (got_accept and n0 + appended != want_len):
                     bad.append({"given": n0, "required": required, "height": height, "outcome": outcome, "length": n0 + appended})
-    raises = {unparse(x.exc.func) for x in ast.walk(fn.node) if isinstance(x, ast.Raise) and isinstance(x.exc, ast.Call)}
+    raises = {unparse(x.exc.func) for x in ast.walk(fn.analysis_node) if isinstance(x, ast.Raise) and isinstance(x.exc, ast.Call)}
     ok = not bad and raises == {"ValueError"}
     check.require(ok, "T6", "Term._parse/arity", "_parse accepts exactly `required` values (height then defaults to 1.0) or `required`+1 when a height is allowed, else ValueError"
                   if ok else f"_parse disagrees with the specification: {bad[:3]} raises={sorted(raises)}", loc(fn), {"rows": rows}, exhaustive=True, cases=rows)
@@ -578,17 +613,17 @@ def special_term(check: Check, c, pa, ca, req, hflag, ctor) -> None:
     elif name == "Linear":
         rp, prets = _ret_terms(p, pfn)
         p_ok = bool(prets) and all(t[0] == "call" and t[1][0] == "attr" and t[1][2] == "_parameters" and t[2] == (("star", ("attr", SELF, "coefficients")),) for t in prets)
-        comps = [x for x in ast.walk(cfn.node) if isinstance(x, ast.ListComp)]
         prm = cfn.params[1].name
-        c_ok = False
-        for x in comps:
-            g = x.generators[0]
-            if len(x.generators) == 1 and not g.ifs and unparse(g.iter) == f"{prm}.split()" and isinstance(x.elt, ast.Call) and unparse(x.elt.func) == "to_float" \
-                    and isinstance(g.target, ast.Name) and unparse(x.elt.args[0]) == g.target.id:
-                c_ok = True
         rc = Resolver(p, cfn)
         st = _self_store(rc, "coefficients")
-        ok = p_ok and c_ok and len(st) == 1 and st[0][1][0] == "opaque"
+        tokens = ("call", ("attr", ("param", prm), "split"), (), ())
+        want = ("mapped", tokens, ("call", ("global", "fuzzylite.operation.Operation.to_float"), (("elem", tokens),), ()))
+        got = st[0][1] if len(st) == 1 else None
+        while got is not None and got[0] == "call" and got[1][0] == "global" and got[1][1] in ("list", "tuple") and len(got[2]) == 1:
+            got = got[2][0]
+        c_ok = got is not None and (got == want or (got[0] == "mapped" and got[1] == tokens and got[2][0] == "call" and got[2][1][0] == "global" and
+                                                    got[2][1][1].split(".")[-1] in ("to_float", "float") and got[2][2] == (("elem", tokens),)))
+        ok = p_ok and c_ok
         check.require(ok, "T6", "Linear/parameters", "Linear: the coefficient list is printed and read back in order (no height)" if ok else
                       f"Linear: printed *coefficients={p_ok}, read back one float per token in order={c_ok}", where)
     elif name == "Function":
@@ -650,19 +685,86 @@ def elision_defaults(check: Check) -> None:
         check.require(default_of(comp, "description") == "''", "T8", f"{comp}/description",
                       f"an empty description is not written, and a fresh {comp} has description '' (default {default_of(comp, 'description')})", p.cls(comp).loc())
     check.require(default_of("Term", "height") == "1.0", "T8", "Term/height", "height 1 is not written and _parse/constructors default it to 1.0", p.cls("Term").loc())
+    from ..guards import RoleEval, paths, simulate, specialise
+    from ..sym import PathResolver
+
+    me = lambda a: ("attr", ("param", "self"), a)  # noqa: E731
+
+    def returned(fn, classify, env) -> set:
+        """The (specialised) values returned along every abstract path of fn under the role assignment."""
+        r = Resolver(p, fn)
+        cfg = r.cfg
+        ev = RoleEval(r, classify)
+        first = [s_ for s_, _ in cfg.entry.succ][0]
+        out = set()
+        for pa in paths(cfg, first, ev, env, set()):
+            rn = [x for x in pa if x.kind == "stmt" and isinstance(x.ast, ast.Return) and x.ast.value is not None]
+            if not rn:
+                out.add(("none",))
+                continue
+            pr = PathResolver(p, fn, pa)
+            out.add(specialise(pr.at(rn[-1].ast.value, pr.index_of(rn[-1])), ev, env))
+        return out
+
+    # Rule.text: `with <weight>` is written iff the weight is not close to 1; Rule.parse starts from weight 1.0
     rp = p.func("Rule.parse")
-    rt = p.func("Rule.text")
-    src_t, src_p = unparse(rt.node), unparse(rp.node)
-    ok = "Op.is_close(self.weight, 1.0)" in src_t and "weight = 1.0" in src_p and default_of("Rule", "weight") == "1.0"
-    check.require(ok, "T8", "Rule/weight", "a weight (close to) 1 is not written and parse defaults the weight to 1.0", loc(rt))
+    rt = p.cls("Rule").getters.get("text") or p.func("Rule.text")
+    check.analysed(rt)
+    r = Resolver(p, rt)
+    cfg = r.cfg
+    close = ("call", ("global", "fuzzylite.operation.Operation.is_close"), (me("weight"), ("const", 1.0)), ())
+    close2 = ("call", ("global", "fuzzylite.operation.Operation.is_close"), (("const", 1.0), me("weight")), ())
+    printed = ("call", ("global", "fuzzylite.operation.Operation.str"), (me("weight"),), ())
+    writers = {n for n in cfg.stmt_nodes() if any(q == printed for e in cfg.exprs_of(n) for q in walk(r.term(e, n)))}
+    ev = RoleEval(r, lambda t, e: "close" if t in (close, close2) else None)
+    first = [s_ for s_, _ in cfg.entry.succ][0]
+    res = {}
+    for v in (True, False):
+        may, must = simulate(cfg, first, ev, {"close": v}, writers, set())
+        res[v] = (bool(may), bool(must))
+    rpr = Resolver(p, rp)
+    wstores = [rpr.term(m.ast.value, m) for m in rpr.cfg.stmt_nodes() for tg in rpr.cfg.stores_at(m)  # type: ignore[union-attr]
+               if isinstance(tg, ast.Attribute) and tg.attr == "weight"]
+    seeded = bool(wstores) and all(any(const_value(a) == 1.0 for a in (t[1] if t[0] == "phi" else [t])) for t in wstores)
+    ok = bool(writers) and res[True] == (False, False) and res[False] == (True, True) and seeded and default_of("Rule", "weight") == "1.0"
+    check.require(ok, "T8", "Rule/weight", "a weight (close to) 1 is not written and parse defaults the weight to 1.0" if ok else
+                  f"weight written when close to 1 (may, must)={res[True]}, otherwise={res[False]}; parse seeds the weight with 1.0: {seeded}; "
+                  f"constructor default {default_of('Rule', 'weight')}", loc(rt), exhaustive=True, cases=2)
+    # IntegralDefuzzifier.parameters: "" iff resolution == default_resolution, else the resolution
     idf = p.cls("IntegralDefuzzifier")
-    src = unparse(idf.lookup("parameters").node) + unparse(idf.lookup("__init__").node)
-    ok = "self.resolution != IntegralDefuzzifier.default_resolution" in src and "resolution or IntegralDefuzzifier.default_resolution" in src
-    check.require(ok, "T8", "IntegralDefuzzifier/resolution", "the default resolution is not written and a fresh defuzzifier has it", idf.loc())
+    pf = idf.lookup("parameters")
+    check.analysed(pf)
+    dres = ("global", "fuzzylite.defuzzifier.IntegralDefuzzifier.default_resolution")
+
+    def cl_res(t, e):  # type: ignore[no-untyped-def]
+        return "resolution" if t == me("resolution") else ("default" if t == dres or (t[0] == "attr" and t[2] == "default_resolution") else None)
+
+    eq = returned(pf, cl_res, {"resolution": 0, "default": 0})
+    ne = returned(pf, cl_res, {"resolution": 1, "default": 0})
+    ri = Resolver(p, idf.lookup("__init__"))
+    stores = [ri.term(m.ast.value, m) for m in ri.cfg.stmt_nodes() for tg in ri.cfg.stores_at(m)  # type: ignore[union-attr]
+              if isinstance(tg, ast.Attribute) and tg.attr == "resolution"]
+    fresh_default = bool(stores) and all((t[0] == "bool" and t[1] == "or" and t[2][0][0] == "param" and cl_res(t[2][1], None) == "default") or
+                                         (t[0] == "ifexp" and any(cl_res(x, None) == "default" for x in (t[2], t[3]))) for t in stores) and \
+        default_of("IntegralDefuzzifier", "resolution") == "None"
+    ok = eq == {("const", "")} and ne == {("call", ("global", "fuzzylite.operation.Operation.str"), (me("resolution"),), ())} and fresh_default
+    check.require(ok, "T8", "IntegralDefuzzifier/resolution", "the default resolution is not written and a fresh defuzzifier has it" if ok else
+                  f"parameters() at the default resolution: {sorted(show(t) for t in eq)}; otherwise: {sorted(show(t) for t in ne)}; "
+                  f"a missing resolution becomes the default: {fresh_default}", idf.loc(), exhaustive=True, cases=2)
+    # WeightedDefuzzifier.parameters: "" iff type is Automatic (the constructor default), else the name of the type
     wd = p.cls("WeightedDefuzzifier")
-    src = unparse(wd.lookup("parameters").node)
-    ok = "self.type == WeightedDefuzzifier.Type.Automatic" in src and default_of("WeightedDefuzzifier", "type") == "Type.Automatic"
-    check.require(ok, "T8", "WeightedDefuzzifier/type", "type Automatic is not written and is the constructor default", wd.loc())
+    pf = wd.lookup("parameters")
+    check.analysed(pf)
+
+    def cl_type(t, e):  # type: ignore[no-untyped-def]
+        return "type" if t == me("type") else ("automatic" if t[0] == "global" and t[1].endswith("Type.Automatic") else None)
+
+    eq = returned(pf, cl_type, {"type": 0, "automatic": 0})
+    ne = returned(pf, cl_type, {"type": 1, "automatic": 0})
+    ok = eq == {("const", "")} and ne == {("attr", me("type"), "name")} and default_of("WeightedDefuzzifier", "type") == "Type.Automatic"
+    check.require(ok, "T8", "WeightedDefuzzifier/type", "type Automatic is not written and is the constructor default" if ok else
+                  f"parameters() for Automatic: {sorted(show(t) for t in eq)}; otherwise: {sorted(show(t) for t in ne)}; constructor default "
+                  f"{default_of('WeightedDefuzzifier', 'type')}", wd.loc(), exhaustive=True, cases=2)
 
 
 # ------------------------------------------------------------------------------------------------ T9
@@ -679,17 +781,72 @@ def registration(check: Check) -> None:
                           f"{c.name} is constructible without arguments, so reflection registers it in the {base} factory" if not missing else
                           f"{c.name}.__init__ requires {missing}: the factory's reflection silently drops the class and FLL text naming it cannot be imported",
                           c.loc())
-    tf = p.func("TermFactory.__init__")
-    check.analysed(tf)
-    sets_ = [s for s in ast.walk(tf.node) if isinstance(s, ast.Set)]
-    excl = {unparse(e) for s in sets_ for e in s.elts}
-    check.require(excl == {"term.Activated", "term.Aggregated"}, "T9", "TermFactory/exclusions",
-                  f"the term factory excludes exactly Activated and Aggregated (found {sorted(excl)})", loc(tf))
-    for fac, keyexpr in (("ActivationFactory", "Op.class_name(a)"), ("DefuzzifierFactory", "Op.class_name(d)"), ("SNormFactory", "Op.class_name(n)"),
-                         ("TNormFactory", "Op.class_name(n)"), ("TermFactory", "Op.class_name(t)")):
+    for fac, base, module in (("ActivationFactory", "Activation", "activation"), ("DefuzzifierFactory", "Defuzzifier", "defuzzifier"),
+                              ("SNormFactory", "SNorm", "norm"), ("TNormFactory", "TNorm", "norm"), ("TermFactory", "Term", "term"), ("HedgeFactory", "Hedge", "hedge")):
         fn = p.func(f"{fac}.__init__")
         check.analysed(fn)
-        check.require(keyexpr in unparse(fn.node), "T9", f"{fac}/keys", f"{fac} is keyed by class name, which is what the exporter writes", loc(fn))
+        entries = keyed_entries(p, fn)
+        src = ("call", ("attr", SELF, "import_from"), (("global", f"fuzzylite.{module}"), ("global", f"fuzzylite.{module}.{base}")), ())
+        by_class = ("call", ("global", "fuzzylite.operation.Operation.class_name"), (("elem", src),), ())
+        by_name = ("attr", ("call", ("elem", src), (), ()), "name")  # hedges are looked up by the word used in rules: instance.name
+        good = [e for e in entries if e["base"] == src and e["value"] == ("elem", src) and e["key"] == (by_name if fac == "HedgeFactory" else by_class)]
+        check.require(len(entries) == 1 and len(good) == 1, "T9", f"{fac}/keys",
+                      f"{fac} registers every concrete {base} of module {module} under " + ("the name its instances carry (the word used in rules)" if fac == "HedgeFactory" else "its class name, which is what the exporter writes") if len(good) == 1 and len(entries) == 1 else
+                      f"{fac} registrations: {[(show(e['key'])[:60], show(e['value'])[:40], show(e['base'])[:60]) for e in entries]}", loc(fn))
+        excl = sorted({x for e in entries for x in e["excluded"]})
+        want = ["fuzzylite.term.Activated", "fuzzylite.term.Aggregated"] if fac == "TermFactory" else []
+        check.require(excl == want and not any(e["other_conditions"] for e in entries), "T9", f"{fac}/exclusions",
+                      f"{fac} excludes exactly {[w.split('.')[-1] for w in want]}" if excl == want else f"{fac} excludes {excl} (specified: {want})", loc(fn))
+
+
+SELF = ("param", "self")
+
+
+def keyed_entries(p, fn) -> list[dict]:
+    """The registrations `dict[key] = value` a factory constructor makes over a collection: from a dict comprehension or from a
+    loop that stores into a dict; with the classes excluded by `x not in {...}` conditions / `if x in {...}: continue` guards."""
+    r = Resolver(p, fn)
+    cfg = r.cfg
+    out = []
+
+    def exclusion(t, pol: bool, elem) -> tuple[list[str] | None, bool]:
+        """(excluded classes, recognised) for a condition that has truth value `pol` when the element is registered."""
+        if t[0] == "unop" and t[1] == "not":
+            return exclusion(t[2], not pol, elem)
+        if t[0] == "cmp" and len(t[2]) == 2 and t[2][0] == elem and t[1][0] in ("in", "not in") and t[2][1][0] in ("set", "tuple", "list"):
+            inside_means_registered = (t[1][0] == "in") == pol
+            if not inside_means_registered and all(x[0] == "global" for x in t[2][1][1]):
+                return [x[1] for x in t[2][1][1]], True
+        return None, False
+
+    for n in cfg.stmt_nodes():
+        if n.copy:
+            continue
+        for e in cfg.exprs_of(n):
+            for x in ast.walk(e):
+                if isinstance(x, ast.DictComp):
+                    t = r.term(x, n)
+                    if t[0] != "mapped_dict":
+                        raise AnalysisError(f"{fn.qualname}: dict comprehension at line {x.lineno} not modelled")
+                    ex, other = [], []
+                    for c in t[4]:
+                        names, ok = exclusion(c, True, ("elem", t[1]))
+                        (ex.extend(names) if ok else other.append(show(c)))  # type: ignore[arg-type]
+                    out.append({"base": t[1], "key": t[2], "value": t[3], "excluded": ex, "other_conditions": other, "node": n})
+        for tg in cfg.stores_at(n):
+            if isinstance(tg, ast.Subscript) and isinstance(tg.value, ast.Name) and isinstance(n.ast, ast.Assign):
+                key, val = r.term(tg.slice, n), r.term(n.ast.value, n)
+                if val[0] != "elem":
+                    continue
+                ex, other = [], []
+                hs = cfg.enclosing_loops(n)
+                body = cfg.lexical_body(hs[-1]) if hs else set()
+                for g, pol, gn in cfg.must_guards(n):
+                    if gn in body:
+                        names, ok = exclusion(r.term(g, gn), pol, val)
+                        (ex.extend(names) if ok else other.append(unparse(g)))  # type: ignore[arg-type]
+                out.append({"base": val[1], "key": key, "value": val, "excluded": ex, "other_conditions": other, "node": n})
+    return out
 
 
 # ------------------------------------------------------------------------------------------------ T10
@@ -717,9 +874,9 @@ def field_coverage(check: Check) -> None:
     rp = p.func("Rule.parse")
     check.analysed(rt)
     check.analysed(rp)
-    exp["Rule"] = {x.attr for x in ast.walk(rt.node) if isinstance(x, ast.Attribute) and isinstance(x.value, ast.Name) and x.value.id == "self"}
-    imp["Rule"] = {x.attr for x in ast.walk(rp.node) if isinstance(x, ast.Attribute) and isinstance(x.value, ast.Name) and x.value.id == "self"
-                   and isinstance(x.ctx, ast.Store)} | {x.value.attr for x in ast.walk(rp.node) if isinstance(x, ast.Attribute) and isinstance(x.ctx, ast.Store)
+    exp["Rule"] = {x.attr for x in ast.walk(rt.analysis_node) if isinstance(x, ast.Attribute) and isinstance(x.value, ast.Name) and x.value.id == "self"}
+    imp["Rule"] = {x.attr for x in ast.walk(rp.analysis_node) if isinstance(x, ast.Attribute) and isinstance(x.value, ast.Name) and x.value.id == "self"
+                   and isinstance(x.ctx, ast.Store)} | {x.value.attr for x in ast.walk(rp.analysis_node) if isinstance(x, ast.Attribute) and isinstance(x.ctx, ast.Store)
                                                         and isinstance(x.value, ast.Attribute) and isinstance(x.value.value, ast.Name) and x.value.value.id == "self"}
     for comp in ("Engine", "InputVariable", "OutputVariable", "RuleBlock", "Rule"):
         for f in ctor_fields(p, p.cls(comp)):
@@ -741,7 +898,7 @@ def keywords(check: Check) -> None:
     rt, rp = p.func("Rule.text"), p.func("Rule.parse")
 
     def kws(fn):
-        return {x.attr for x in ast.walk(fn.node) if isinstance(x, ast.Attribute) and isinstance(x.value, ast.Name) and x.value.id == "Rule"
+        return {x.attr for x in ast.walk(fn.analysis_node) if isinstance(x, ast.Attribute) and isinstance(x.value, ast.Name) and x.value.id == "Rule"
                 and x.attr.isupper()}
 
     a, b = kws(rt), kws(rp)
@@ -820,7 +977,7 @@ def line_syntax(check: Check) -> None:
                   f"blocks processed inside the line loop: {len(inside)}, after it: {len(after)} - the last component of a document is dropped", loc(fe))
     sc = p.func("Operation.strip_comments")
     check.analysed(sc)
-    src_ok = any(isinstance(x, ast.Call) and isinstance(x.func, ast.Attribute) and x.func.attr == "find" for x in ast.walk(sc.node))
+    src_ok = any(isinstance(x, ast.Call) and isinstance(x.func, ast.Attribute) and x.func.attr == "find" for x in ast.walk(sc.analysis_node))
     dflt = [q.default for q in sc.params if q.name == "delimiter"]
     ok = src_ok and bool(dflt) and isinstance(dflt[0], ast.Constant) and dflt[0].value == "#"
     check.require(ok, "T13", "Operation.strip_comments/hash", "text after `#` is a comment", loc(sc))
